@@ -26,6 +26,8 @@ package engine
 //@   ensures [no_router_no_exit] (isnil(node.(*definition.node).router) && len(node.(*definition.node).exits) == 0) ==> (isnil(result2) && isnil(result0))
 //@   ensures [exit_of_node] !isnil(result0) ==> (exists k int :: 0 <= k && k < len(node.(*definition.node).exits) && node.(*definition.node).exits[k] == result0 && step.(*runs.step).exitUUID == result0.(*definition.exit).uuid)
 //@   ensures [routed] (!isnil(node.(*definition.node).router) && isnil(result2) && !isnil(result0)) ==> (exists br *routers.baseRouter, cu flows.CategoryUUID, m string, op string {routedTo(br, cu, m, op, result0.(*definition.exit).uuid)} :: routedTo(br, cu, m, op, result0.(*definition.exit).uuid))
+// a router is only asked for its timeout category when the caller says this is a timeout: otherwise a switch router's cases decide
+//@   ensures [cases_unless_timeout] (!isTimeout && typeis(node.(*definition.node).router, *routers.SwitchRouter) && isnil(result2)) ==> (exists op types.XValue, m string, cu flows.CategoryUUID {caseMatched(node.(*definition.node).router.(*routers.SwitchRouter), op, m, cu)} :: caseMatched(node.(*definition.node).router.(*routers.SwitchRouter), op, m, cu))
 //@   checks [no_category_fails_run] (!isnil(node.(*definition.node).router) && isnil(result2) && exitUUID == "") ==> (isnil(result0) && run.(*runs.run).status == flows.RunStatusFailed && step.(*runs.step).exitUUID == old(step.(*runs.step).exitUUID))
 // C01 (trusted frame, see Action.Execute): routing can only fail the run it routes for; an exit comes back only if it did not
 //@   assigns computed
